@@ -42,8 +42,8 @@ one-character string; in minimal mode `Decolored` skips an ESC (and would skip u
 `m` *of the same string*, which is empty here). -/
 def printChar (minimal : Bool) (w : World) (c : Char) : World :=
   if minimal then
-    if c == Char.ofNat 0x1b then w else { w with out := w.out ++ [c] }
-  else { w with out := w.out ++ [c] }
+    if c == Char.ofNat 0x1b then w else { w with outRev := c :: w.outRev }
+  else { w with outRev := c :: w.outRev }
 
 /-- `Output::Normal.print(<text without ESC produced by integer formatting>)` -/
 def printStr (minimal : Bool) (w : World) (cs : List Char) : World :=
@@ -234,7 +234,7 @@ def trap (minimal : Bool) (m : Machine) (w : World) (instr : Word) : StepResult 
   | 0x24 => .ok m (putspLoop minimal m 65536 (reg m 0#16) w)
   | 0x25 =>
     -- `self.pc = HALT_ADDRESS; println!("\n{:>12}", "Halted".cyan())` (no colour when piped)
-    .ok (m.setPC 0xFFFF#16) { w with out := w.out ++ haltBanner }
+    .ok (m.setPC 0xFFFF#16) { w with outRev := haltBanner.reverse ++ w.outRev }
   | 0x26 => .ok m (printStr minimal w (decI16 (reg m 0#16)))
   | 0x27 => .ok m (printRegisters minimal m w)   -- `start_new_line` only writes to stderr
   | _ => .exit 0xEE w
